@@ -85,6 +85,7 @@ Inductive result :=
 | RSub (inst : N)
 | RReq (r : N)
 | RImported (l : list (str * entry * bool))
+| RDump (d : node entry) (n : N)      (* observation only: the whole tree and the cached length *)
 | RErr (code : N)
 | RCrash.
 
@@ -130,6 +131,57 @@ Definition check_read_only (key : str) (c : cid) : option N :=
 
 Definition key_of (p : list str) : str := join slash p.
 
+(* serde_json::from_value::<Vec<String>> *)
+Fixpoint all_strings (l : list json) : option (list str) :=
+  match l with
+  | [] => Some []
+  | JStr s :: l' => match all_strings l' with Some r => Some (s :: r) | None => None end
+  | _ => None
+  end.
+Definition dec_grave_goods (j : json) : option (list str) :=
+  match j with JArr l => all_strings l | _ => None end.
+
+(* serde_json::from_value::<Vec<KeyValuePair>>: a KeyValuePair is a map with a string "key" and
+   any "value" (other fields ignored) or a sequence of exactly [key, value] *)
+Definition dec_kvp (j : json) : option (str * json) :=
+  match j with
+  | JObj fields =>
+      match assoc s_key fields, assoc s_value fields with
+      | Some (JStr k), Some v => Some (k, v)
+      | _, _ => None
+      end
+  | JArr [JStr k; v] => Some (k, v)
+  | _ => None
+  end.
+Fixpoint all_kvps (l : list json) : option (list (str * json)) :=
+  match l with
+  | [] => Some []
+  | j :: l' => match dec_kvp j, all_kvps l' with
+               | Some kv, Some r => Some (kv :: r)
+               | _, _ => None
+               end
+  end.
+Definition dec_last_will (j : json) : option (list (str * json)) :=
+  match j with JArr l => all_kvps l | _ => None end.
+
+(* PersistentStorageImpl::validate_value (persistence/mod.rs): is_grave_goods_topic /
+   is_last_will_topic look at segments 1 and 3 of a 4-segment key starting with "$SYS/" *)
+Definition E_IoError : N := 3.
+Definition special_value_bad (key : str) (v : json) : bool :=
+  if starts_with s_SYS_prefix key then
+    match split slash key with
+    | [_; s1; _; s3] =>
+        if str_eqb s1 s_clients then
+          if str_eqb s3 s_graveGoods then
+            match v with JNull => false | _ => match dec_grave_goods v with Some _ => false | None => true end end
+          else if str_eqb s3 s_lastWill then
+            match v with JNull => false | _ => match dec_last_will v with Some _ => false | None => true end end
+          else false
+        else false
+    | _ => false
+    end
+  else false.
+
 (* notify_subscribers (814-857) *)
 Definition notify (s : core) (path : list str) (key : str) (v : json) (changed deleted : bool)
   : list (N * event) :=
@@ -161,6 +213,7 @@ Definition do_insert (s : core) (c : cid) (key : str) (e : entry) (force : bool)
       match parse_segments key with
       | Err code => (s, out_res (RErr code))
       | Ok path =>
+          if special_value_bad key (entry_val e) then (s, out_res (RErr E_IoError)) else
           match decide (lookup (data s) path) e force with
           | DErr code => (s, out_res (RErr code))
           | DCrash => (s, out_res RCrash)
@@ -291,12 +344,17 @@ Fixpoint merge (n other : node entry) {struct other} : node entry :=
   match other with
   | Node ov ocs =>
       let v1 := match ov with Some v => Some v | None => nval n end in
-      Node v1 ((fix go (ocs : list (str * node entry)) (kids : list (str * node entry))
+      match ocs with
+      | [] => Node v1 (nkids n)      (* `if let Some(tree) = other.into_sub_tree()`: no children, no trim *)
+      | _ =>
+      Node v1 (trim_kids
+               ((fix go (ocs : list (str * node entry)) (kids : list (str * node entry))
                   : list (str * node entry) :=
                   match ocs with
                   | [] => kids
                   | (k, c) :: ocs' => go ocs' (upd_child empty_node k (fun own => merge own c) kids)
-                  end) ocs (nkids n))
+                  end) ocs (nkids n)))
+      end
   end.
 
 (* concat_key (1083-1093): the root's own value gets the key "" *)
@@ -592,39 +650,6 @@ Definition do_connected (s : core) (c : cid) : core * output :=
                 (fun s => do_insert s 0 (topic [s_SYS; s_clients; client_str c; s_address]) (Plain JNull) true) in
   (fst r, if is_crash (snd r) then snd r else out_with RUnit (snd r)).
 
-(* serde_json::from_value::<Vec<String>> *)
-Fixpoint all_strings (l : list json) : option (list str) :=
-  match l with
-  | [] => Some []
-  | JStr s :: l' => match all_strings l' with Some r => Some (s :: r) | None => None end
-  | _ => None
-  end.
-Definition dec_grave_goods (j : json) : option (list str) :=
-  match j with JArr l => all_strings l | _ => None end.
-
-(* serde_json::from_value::<Vec<KeyValuePair>>: a KeyValuePair is a map with a string "key" and
-   any "value" (other fields ignored) or a sequence of exactly [key, value] *)
-Definition dec_kvp (j : json) : option (str * json) :=
-  match j with
-  | JObj fields =>
-      match assoc s_key fields, assoc s_value fields with
-      | Some (JStr k), Some v => Some (k, v)
-      | _, _ => None
-      end
-  | JArr [JStr k; v] => Some (k, v)
-  | _ => None
-  end.
-Fixpoint all_kvps (l : list json) : option (list (str * json)) :=
-  match l with
-  | [] => Some []
-  | j :: l' => match dec_kvp j, all_kvps l' with
-               | Some kv, Some r => Some (kv :: r)
-               | _, _ => None
-               end
-  end.
-Definition dec_last_will (j : json) : option (list (str * json)) :=
-  match j with JArr l => all_kvps l | _ => None end.
-
 Fixpoint iter_ops {A} (f : core -> A -> core * output) (l : list A) (s : core) : core * output :=
   match l with
   | [] => (s, out_res RUnit)
@@ -679,7 +704,8 @@ Inductive op :=
 | OSubscribeLs (c t : N) (parent : option str)
 | OUnsubscribeLs (c t : N)
 | OLock (c : cid) (k : str) | OAcquire (c : cid) (k : str) | ORelease (c : cid) (k : str)
-| OConnected (c : cid) | ODisconnected (c : cid).
+| OConnected (c : cid) | ODisconnected (c : cid)
+| ODump.
 
 Definition step (s : core) (o : op) : core * output :=
   match o with
@@ -707,6 +733,7 @@ Definition step (s : core) (o : op) : core * output :=
   | ORelease c k => do_release s c k
   | OConnected c => do_connected s c
   | ODisconnected c => do_disconnected s c
+  | ODump => (s, out_res (RDump (data s) (len s)))
   end.
 
 (* a crashed core answers nothing any more *)
